@@ -53,6 +53,33 @@ Proof.
   - apply Nat.eqb_neq in E. cbn. rewrite IH. split; [intros [H|H]; [subst; split; auto|tauto]|tauto].
 Qed.
 
+Lemma last_of_In f tbl p l : last_of f tbl p = Some l -> In l tbl.
+Proof.
+  induction tbl as [|c r IH]; cbn; [discriminate|].
+  destruct (last_of f r p) as [l'|].
+  - intros H; inversion H; subst. right. auto.
+  - destruct (f c) as [q|]; [|discriminate]. destruct (q =? p); [|discriminate].
+    intros H; inversion H; subst. now left.
+Qed.
+
+Lemma In_remove_swap f x c tbl : In x (remove_swap f tbl c) <-> In x tbl /\ x <> c.
+Proof.
+  unfold remove_swap. destruct (mem c tbl) eqn:M.
+  - destruct (f c) as [p|]; [|apply In_remove_nat].
+    destruct (last_of f tbl p) as [l|] eqn:L; [|apply In_remove_nat].
+    destruct (l =? c) eqn:E; [apply In_remove_nat|].
+    apply Nat.eqb_neq in E. apply last_of_In in L. rewrite in_map_iff. split.
+    + intros (y & Hy & Hin). apply In_remove_nat in Hin as [Hin Hn].
+      destruct (y =? c) eqn:Ey.
+      * subst. split; auto.
+      * apply Nat.eqb_neq in Ey. subst. split; auto.
+    + intros [Hin Hn]. destruct (Nat.eq_dec x l) as [->|Nl].
+      * exists c. rewrite Nat.eqb_refl. split; auto. apply In_remove_nat. split; [now apply mem_In|auto].
+      * exists x. assert (Ex : x =? c = false) by (now apply Nat.eqb_neq). rewrite Ex. split; auto.
+        apply In_remove_nat. auto.
+  - split; [|tauto]. intros H. split; auto. intros ->. apply mem_In in H. congruence.
+Qed.
+
 Lemma nth_close_listed tbl i cs j :
   nth_error (close_listed tbl i cs) j =
   option_map (fun k => if mem (i + j) tbl then close_conn k else k) (nth_error cs j).
@@ -184,11 +211,11 @@ Proof.
   intros H. apply in_or_app. left. auto.
 Qed.
 
-Lemma CInv_tbl_remove cl tbl ab c k c0 : c <> c0 -> CInv cl tbl ab c k -> CInv cl (remove_nat c0 tbl) ab c k.
+Lemma CInv_tbl_remove f cl tbl ab c k c0 : c <> c0 -> CInv cl tbl ab c k -> CInv cl (remove_swap f tbl c0) ab c k.
 Proof.
   intros N [H1 H2 H3 H4 H5]. constructor; auto.
-  - intros Hc Hin. apply In_remove_nat in Hin. tauto.
-  - intros H. apply In_remove_nat. auto.
+  - intros Hc Hin. apply In_remove_swap in Hin. tauto.
+  - intros H. apply In_remove_swap. auto.
 Qed.
 
 Lemma live_count_pos cs c k : nth_error cs c = Some k -> live (hd k) = true -> 1 <= count_live cs.
@@ -570,9 +597,9 @@ Proof.
           try (rewrite Hs; intros [E|[E|E]]; discriminate);
           try (intros L; destruct (H2 L) as [E|[E|E]]; auto; try discriminate;
                unfold setting_up in E; rewrite Hs in E; discriminate).
-        intros _ Hin. apply In_remove_nat in Hin. tauto.
+        intros _ Hin. apply In_remove_swap in Hin. tauto.
       * apply CInv_tbl_remove; auto.
-    + intros c1 Hc. rewrite upd_length. apply In_remove_nat in Hc. apply It. tauto.
+    + intros c1 Hc. rewrite upd_length. apply In_remove_swap in Hc. apply It. tauto.
     + intros c1 Hc. rewrite upd_length. auto.
     + unfold count_live in *. pose proof (sumf_upd livef _ _ _ (set_hd k HDead) Ek) as E.
       unfold livef in E at 2 4. cbn in E. rewrite Eh in E. cbn in E. lia.
